@@ -121,7 +121,7 @@ def gen_yaml(which):
                     {"hg19": ("9", 5001, "+", "M120", -1000),
                      "hg38": ("9", 7001, "-", "M120", 1000)},
                     al, pseudo="GAP", cn_regions=["e1", "i1", "e2", "i2", "e3"],
-                    tandems=[["5", "1"]])
+                    tandems=[["5", "1"], ["5", "2"]])  # two tandems share a head
     elif which == "GB":
         # - strand in hg19, + strand in hg38, no pseudogene, no structural alleles,
         # two substitutions at one site, insertion and substitution at one site
